@@ -426,6 +426,10 @@ class Encoder:
                 return "L", False
             if a[0] == "method":
                 obj, meth = a[1], a[2]
+                if meth == "acquire":
+                    return "R", True
+                if meth == "release":
+                    return "L", False
                 if meth in ("get", "join"):
                     return "N", True
                 if meth in ("put", "task_done", "start"):
@@ -557,7 +561,9 @@ class Encoder:
         sc["g_shutdown"] = z3.BoolVal(False)
         sc["g_start_after_int"] = z3.BoolVal(False)
         del sc["lock"]
-        self.lock_names = sorted({i.a[1][1] for p in self.progs.values() if p for i in p.instrs.values() if i.op == "env" and i.a[0] in ("acquire", "release")})
+        self.lock_names = sorted({i.a[1][1] for p in self.progs.values() if p for i in p.instrs.values() if i.op == "env" and i.a[0] in ("acquire", "release")}
+                                 | {i.a[1][1] for p in self.progs.values() if p for i in p.instrs.values()
+                                    if i.op == "env" and i.a[0] == "method" and i.a[2] in ("acquire", "release") and i.a[1][0] == "objvar"})
         for ln in self.lock_names:
             sc["lock:" + ln] = bv(0)
         s.vars["main/$exc"] = VExc(False, 0, 0)
@@ -1023,6 +1029,17 @@ class Encoder:
             if name == "type":
                 return VRef("typeof", "node") if isinstance(args[0], VNode) else VRef("typeof", "other")
             raise Unsupported(f"call to {name}() (line {ins.line})")
+        if a[0] == "method" and a[2] in ("acquire", "release") and a[1][0] == "objvar" and ("lock:" + a[1][1]) in sc:
+            # explicit lock.acquire() / lock.release() (no `with`): same environment operations; the lock-set pass does not see a
+            # protected region here, so the accesses in between stay separate steps (sound, only slower)
+            key = "lock:" + a[1][1]
+            if a[2] == "acquire":
+                g.append(sc[key] == 0)
+                sc[key] = bv(self._tidnum(tid))
+            else:
+                s.bad["lock_misuse"] = OR(s.bad["lock_misuse"], sc[key] != self._tidnum(tid))
+                sc[key] = bv(0)
+            return VNone()
         if a[0] == "method":
             obj, meth = a[1], a[2]
             args = [ev(x) for x in a[3]]
@@ -1112,6 +1129,13 @@ class Encoder:
         if isinstance(o, VRef) and o.kind == "glob" and (meth.endswith("Error") or meth.endswith("Exception") or meth in ("HasACycle", "NetworkXUnfeasible")):
             # construction of an exception object from a module attribute (e.g. nx.HasACycle(...)): some Exception, no origin node
             return VExc(True, K_EXC, bv(self.N))
+        if isinstance(o, VRef) and o.kind == "glob" and o.name not in ("threading", "queue", "graph", "nx"):
+            # a call on a module-level object the model knows nothing about (logger.debug, warnings.warn, time.monotonic ...):
+            # environment assumption -- it neither touches the engine's state nor raises; recorded in the instance notes
+            note = f"line {ins.line}: {o.name}.{meth}(...) treated as having no effect on the engine state"
+            if note not in self.fe.notes:
+                self.fe.notes.append(note)
+            return VNone()
         raise Unsupported(f"method {meth} on {o.key()} (line {ins.line})")
 
     # ------------------------------------------------------------------ user function events + monitors
